@@ -22,6 +22,9 @@ CHECKS = {
  "C18": ("bounded-exhaustive enumeration monitor: encoded composite keys of all enumerated (secondary, primary) pairs must be strictly increasing in specification order and split back; black-box order read-back through List/Prefix/LowerBound; encoder domains",
          "Exploration with a bounded-exhaustive core: all pairs of byte strings of length 0..3 over {00,01,02,ff} (quick; 0..4 over {00,01,02,7f,ff} thorough) are encoded with the real encoder (exposed under the verif tag) and compared in specification order, which decides injectivity and order preservation for every pair of the enumerated space; Uint16 over its whole domain, 32/64-bit encoders over boundary sets and seeded samples, LPM keys for all prefix lengths 0..32 x sampled words. Long primaries are probed at listed lengths only.",
          "The enumerated space is small by design (short strings); long keys only at the listed probe lengths (those failing are known findings D9). Signed encoders are only checked for injectivity, as the statement says.", "5/C18"),
+ "C20": ("virtual-time (testing/synctest) monitor comparing return time, returned set, error and Has() of WatchSet.Wait with an executable model over random close/cancel/settle schedules",
+         "Exploration: seeded random schedules run under virtual time so that return instants are exact; up to three consecutive Wait calls per set; sets built with Add duplicates, Clear and Merge; all three settle regimes and cancellation before/after the first close.",
+         "Event times are kept distinct so the model has no ties; real-timer granularity is out of scope (virtual time).", "5/C20"),
 }
 
 NOT_YET = "check not built yet in this session (planned: see DESIGN.md section 5)"
